@@ -139,6 +139,10 @@ Step == /\ l <= Len(T.ev) /\ l' = l + 1 /\ tid' = tid
                                  /\ failed' = None
              [] e.k = "rxturn" -> /\ verdict' = (IF Len(e.air) > 0 THEN <<"C02.OnlyOwnPayload", "a turn as receiver transmitted something">> ELSE <<"ok", "">>)
                                   /\ failed' = None        \* (leaving RX mode with ACK payloads enabled empties the TX FIFO)
+             [] e.k = "ctx" -> /\ verdict' = (IF Len(e.air) > 0 THEN <<"C02.OnlyOwnPayload", "leaving / entering the context transmitted something">>
+                                              ELSE IF e.exc # "none" THEN <<"C02.Bounded", "leaving / entering the context raised " \o e.exc>>
+                                              ELSE <<"ok", "">>)
+                               /\ failed' = failed        \* the failed payload is still the one resend() re-sends
              [] e.k = "txread" -> /\ verdict' = TxReadClause(e)
                                   /\ failed' = failed       \* reading ACK payloads does not touch the failed payload
              [] e.k = "drain" -> verdict' = DrainClause(e, T.ev[l - 1]) /\ failed' = failed
